@@ -246,6 +246,76 @@ def run_exploit(sd):
     return res
 
 
+def run_termmap(sd):
+    """LazyTermMap: every reported entry i -> j of the map of (permutations, factor) must
+    satisfy  P term_i = factor * term_j  in value; queried in sequences on one instance
+    (the class caches maps and derives maps of re-ordered products from cached ones)."""
+    rng = random.Random(sd)
+    from itertools import permutations as iperms
+    from adcgen import Expr
+    from adcgen.simplify import simplify
+    from adcgen.symmetry import LazyTermMap, Permutation
+    from adcgen.indices import get_symbols
+    sp = rng.choice(["o", "v"])
+    three = get_symbols("ijk" if sp == "o" else "abc")
+    extra = get_symbols(rng.choice(["", "a", "ab"]) if sp == "o" else rng.choice(["", "i", "ij"]))
+    T = list(three) + list(extra)
+    g = TermGen(rng, spaces="ov", n_tensors=(2, 3), max_contracted=3,
+                names=["V", "f", "t1", "t2", "Y", "d0", "c", "b"], exclude=())
+    try:
+        t0 = g.term_with_target(T)
+    except RuntimeError:
+        return {"status": "skipped", "item": sd}
+    if not consistent_bks(t0):
+        return {"status": "skipped", "item": sd}
+    mode = rng.choice(["anti", "anti", "sym", "cyclic"])
+    terms = []
+    for pm in iperms(range(3)):
+        par = sum(1 for x in range(3) for y in range(x + 1, 3) if pm[x] > pm[y]) % 2
+        if mode == "cyclic" and par:
+            continue
+        sub = {three[q]: three[pm[q]] for q in range(3)}
+        terms.append((-1 if (par and mode == "anti") else 1) * t0.xreplace(sub))
+    e = simplify(Expr(Add(*terms), target_idx=T))
+    if e.sympy is S.Zero or len(e) < 2:
+        return {"status": "skipped", "item": sd}
+    res = {"item": sd, "in": str(e)[:300], "target": " ".join(map(str, T)), "status": "equal",
+           "reported": 0, "mode": "termmap"}
+    m = LazyTermMap(e)
+    tl = list(e.terms)
+    P = lambda x, y: Permutation(three[x], three[y])       # noqa: E731
+    singles = [(P(0, 1),), (P(0, 2),), (P(1, 2),)]
+    doubles = [(P(0, 1), P(0, 2)), (P(0, 2), P(0, 1)), (P(0, 1), P(1, 2)), (P(1, 2), P(0, 1)),
+               (P(0, 2), P(1, 2)), (P(1, 2), P(0, 2))]
+    if len(extra) == 2:
+        px = Permutation(extra[0], extra[1])
+        doubles += [(P(0, 1), px), (P(0, 1), P(0, 2), px), (P(0, 2), P(0, 1), px)]
+    queries = [(rng.choice(doubles), rng.choice([1, -1])) for _ in range(rng.randint(2, 4))]
+    queries += [(rng.choice(singles), rng.choice([1, -1]))]
+    if rng.random() < 0.7:
+        # the same product in reversed order right after the original one
+        q0 = queries[0]
+        queries.insert(1, (tuple(reversed(q0[0])) if len(q0[0]) == 2 else q0[0], q0[1]))
+    out = []
+    for perms, f in queries:
+        mp = m[(perms, f)]
+        out.append(f"{perms}:{f} -> {mp}")
+        for ti, tj in mp.items():
+            res["reported"] += 1
+            A = apply_perms(tl[ti].sympy, [tuple(p_) for p_ in perms])
+            B = f * tl[tj].sympy
+            oc = _cmp(A, B, T, res)
+            if oc.status != "equal":
+                res["status"] = oc.status
+                res["witness"] = dict(oc.witness or {}, query=f"{perms}:{f}", entry=f"{ti}->{tj}",
+                                      history=out[:])
+                res["out"] = "; ".join(out)[:400]
+                if oc.status == "differ":
+                    return res
+    res["out"] = "; ".join(out)[:400]
+    return res
+
+
 def _key_block(o):
     """space (and spin) block of an IR tensor/delta factor, as the library words it"""
     idx = list(o[3] + o[4]) if o[0] == "t" else (list(o[2]) if o[0] == "n" else [o[1], o[2]])
@@ -371,7 +441,7 @@ def main():
     ap.add_argument("--tier", default="quick")
     ap.add_argument("--replay")
     a = ap.parse_args()
-    fns = {"symmetry": run_symmetry, "exploit": run_exploit, "sort": run_sort}
+    fns = {"symmetry": run_symmetry, "exploit": run_exploit, "sort": run_sort, "termmap": run_termmap}
     if a.replay:
         import json
         p = json.load(open(a.replay))
@@ -382,8 +452,8 @@ def main():
     quick = a.tier == "quick"
     TIMEOUT = 20000 if quick else 120000
     run = Run("C10", a.tier, "translation_validation")
-    n = {"symmetry": 160, "exploit": 80, "sort": 100} if quick else \
-        {"symmetry": 3000, "exploit": 1200, "sort": 1500}
+    n = {"symmetry": 160, "exploit": 80, "sort": 100, "termmap": 60} if quick else \
+        {"symmetry": 3000, "exploit": 1200, "sort": 1500, "termmap": 600}
     base = seed() * 1000003 + 1000
     for part, fn in fns.items():
         results = pmap(fn, [base + k for k in range(n[part])], limit=(30 if quick else 300))
